@@ -161,7 +161,7 @@ fn mc_request(q: &Value) -> make_credential::Request {
             })
         },
         options: options(&q["opts"]),
-        pin_auth: if q["pin_auth"].as_bool().unwrap_or(false) { Some(vec![1u8; 16].into()) } else { None },
+        pin_auth: if q["pin_auth"].as_bool().unwrap_or(false) { Some(vec![1u8; q["pin_auth_len"].as_u64().unwrap_or(16) as usize].into()) } else { None },
         pin_protocol: None,
     }
 }
@@ -181,7 +181,7 @@ fn ga_request(q: &Value) -> get_assertion::Request {
             })
         },
         options: options(&q["opts"]),
-        pin_auth: if q["pin_auth"].as_bool().unwrap_or(false) { Some(vec![1u8; 16].into()) } else { None },
+        pin_auth: if q["pin_auth"].as_bool().unwrap_or(false) { Some(vec![1u8; q["pin_auth_len"].as_u64().unwrap_or(16) as usize].into()) } else { None },
         pin_protocol: None,
     }
 }
